@@ -52,6 +52,7 @@ def snapshot():
 def hard_reset():
   """Restores every store recorded by snapshot() in place; resets scope stack and parse contexts."""
   assert _SNAP is not None, 'snapshot() not taken'
+  release_owned_locks()   # first: restoring the stores may run finalizers of dropped objects, which may call into gin
   g = vars(cfg)
   for k, rec in _SNAP.items():
     kind = rec[0]
